@@ -204,6 +204,25 @@ def check_flags(c):
     m = ExpFlow(scale=c["scale"], steps=c["steps"], align_corners=c["ac"])
     if (m(flow, inverse=True) - a).abs().max() > 1e-12 or (m.inv(flow) - a).abs().max() > 1e-12:
         return ("C11:ExpFlow:inverse", "ExpFlow inverse / .inv differ from expv(inverse=True)")
+    # the transform class that owns an ExpFlow: the exponential it evaluates keeps scale and steps (and follows the grid's
+    # align_corners) through inverse() and through re-gridding onto a grid of the other convention
+    if c["steps"] > 0 and min(c["shape"]) >= 3:
+        from deepali.core.grid import Grid
+        import deepali.spatial as S
+        g = Grid(shape=c["shape"], align_corners=c["ac"])
+        t = S.StationaryVelocityFieldTransform(g, params=flow.float(), scale=c["scale"], steps=c["steps"])
+        g2 = Grid(shape=c["shape"], align_corners=not c["ac"])
+        for name, u in (("grid", t.grid(g2)), ("inverse.grid", t.inverse().grid(g2)), ("grid.inverse", t.grid(g2).inverse())):
+            want_scale = c["scale"] * (-1 if "inverse" in name else 1)
+            ex = u.exp
+            if ex.scale != want_scale or ex.steps != c["steps"] or ex.align_corners != g2.align_corners():
+                return (f"C11:SVF:regrid:{name}", f"StationaryVelocityFieldTransform(scale={c['scale']}, steps={c['steps']}).{name}() "
+                        f"evaluates ExpFlow(scale={ex.scale}, steps={ex.steps}, align_corners={ex.align_corners}) on a grid with "
+                        f"align_corners={g2.align_corners()}")
+            u.update()
+            ref = U.expv(u.v, scale=want_scale, steps=c["steps"], align_corners=g2.align_corners())
+            if (u.u - ref).abs().max() > 1e-5:
+                return (f"C11:SVF:regrid:{name}", f"buffer u differs from expv(v, scale={want_scale}) by {float((u.u - ref).abs().max()):.3e}")
     return None
 
 
@@ -289,7 +308,8 @@ def check_smooth(c):
 ORACLES = [
     Oracle("closed_form", gen_closed, check_closed, doc="expv / ExpFlow on invariant affine generators vs (I+sH)^(2^k), "
            "steps 0..8, scales, float32/64, batch sizes, both conventions"),
-    Oracle("flags", gen_flags, check_flags, doc="zero steps, inverse flag = negated scale = negated field, ExpFlow.inv"),
+    Oracle("flags", gen_flags, check_flags, doc="zero steps, inverse flag = negated scale = negated field, ExpFlow.inv; "
+           "StationaryVelocityFieldTransform keeps scale / steps of its exponential through inverse() and re-gridding to the other convention"),
     Oracle("converge", gen_converge, check_converge, doc="exploration: convergence to the matrix exponential in k"),
     Oracle("smooth", gen_smooth, check_smooth, doc="exploration: exp(v)∘exp(−v) ≈ id, second order in amplitude"),
 ]
